@@ -56,7 +56,8 @@ C09Fails(e) ==
              \cup (IF e.ver = "ok" /\ e.rever # "ok" THEN {"signature-no-longer-verifies-after-reencoding"} ELSE {})
              \cup (IF e.re2 # e.re THEN {"second-cycle-differs"} ELSE {}))
        \cup (IF e.clr = <<>> THEN {"cannot-encode-after-clearing-raw"}
-             ELSE (IF e.clr2a # e.clr \/ e.clr2b # e.clr THEN {"canonical-form-not-a-fixed-point"} ELSE {}))
+             ELSE (IF e.clr2a # e.clr \/ e.clr2b # e.clr THEN {"canonical-form-not-a-fixed-point"} ELSE {})
+                  \cup (IF e.clr # ClearedPrediction(e.kind, e.wire) THEN {"form-after-discarding-raw-bytes-is-not-the-canonical-encoding-of-the-same-content"} ELSE {}))
 
 Fails(e) ==
   CrossCheck(e) \cup
